@@ -26,6 +26,7 @@ def make_machine(mod, job, mode='real'):
     m.libm_small = bool(job.get('libm_small', False))
     m.rehash_bias = job.get('rehash_bias', 0)
     m.fork_int_selects = bool(job.get('fork_int_selects', False))
+    m.decimal_literals = bool(job.get('decimal_literals', False)) and mode == 'real'
     import llsym.terms as _t
     _t.ROUND_CONCRETE[0] = bool(job.get('round_concrete', False)) and mode == 'real'
     hook = job.get('machine_hook')
@@ -429,13 +430,20 @@ def _job_worker(idx):
                 obs.append(dict(kind='true', a=mk_cmp('ne', dterm, Fraction(0)), b=True, tag='divisor-nonzero', k=di, nass=len(m.assumptions), ndiv=di, extra=None))
         # ---- vacuity twin: assumptions and premises of the whole path must be satisfiable
         wkind, wenv, wconds = (None, None, None)
-        if obs and job.get('witness', True):
+        wopt = job.get('witness', True)
+        if wopt == 'lazy':
+            # only when some obligation is not discharged structurally (then the point also serves point refutation)
+            wopt = any(ob['kind'] != 'bits' and not goal_of(ob)[1] for ob in obs)
+            lazy_point_only = True
+        else:
+            lazy_point_only = False
+        if obs and wopt:
             wkind, wenv, wconds = find_witness(m, divprem, job)
             if wkind == 'numeric':
                 summary['numeric_witnesses'] = summary.get('numeric_witnesses', 0) + 1
             elif wkind == 'exact':
                 summary['concrete_witnesses'] = summary.get('concrete_witnesses', 0) + 1
-        if obs and job.get('witness', True) and wkind is None:
+        if obs and wopt and wkind is None and not lazy_point_only:
             obs.append(dict(kind='witness', a=True, b=True, tag='__path_satisfiable', k=pid, nass=len(m.assumptions),
                             ndiv=len(m.divisors), extra=None))
         # ---- group obligations into batches with identical assumption prefixes
